@@ -22,6 +22,7 @@ type respScript struct {
 	size    int
 	framing string // content-length, chunked, close
 	info    bool   // the backend sends "103 Early Hints" before the final response
+	salt    int    // varies the body bytes (two exchanges in flight must not be able to pass for each other)
 }
 
 func (r respScript) String() string {
@@ -44,6 +45,11 @@ type clientView struct {
 	info   []int
 	body   bytes.Buffer
 	flushs int
+	// a slow client: the stallAt-th Write blocks (before it looks at the bytes) until resume is closed
+	stallAt int
+	writes  int
+	stalled chan struct{}
+	resume  chan struct{}
 }
 
 func (c *clientView) Header() http.Header { return c.h }
@@ -62,6 +68,11 @@ func (c *clientView) Write(p []byte) (int, error) {
 	if c.code == 0 {
 		c.WriteHeader(200)
 	}
+	c.writes++
+	if c.stallAt > 0 && c.writes == c.stallAt {
+		close(c.stalled)
+		<-c.resume
+	}
 	return c.body.Write(p)
 }
 func (c *clientView) Flush() { c.flushs++ }
@@ -74,10 +85,12 @@ var respHeaderSets = [][][2]string{
 	{{"Keep-Alive", "timeout=3"}, {"Proxy-Authenticate", "Basic"}, {"X-E2e", "kept"}, {"Connection", "X-Hop"}, {"X-Hop", "drop-me"}},
 }
 
-func payload(n int) []byte {
+func payload(n int) []byte { return payloadS(n, 0) }
+
+func payloadS(n, salt int) []byte {
 	b := make([]byte, n)
 	for i := range b {
-		b[i] = byte('A' + (i*11+i/251)%26)
+		b[i] = byte('A' + (i*11+i/251+salt)%26)
 	}
 	return b
 }
@@ -89,7 +102,7 @@ func (r respScript) steps() []step {
 	for _, h := range respHeaderSets[r.hdr] {
 		fmt.Fprintf(&head, "%s: %s\r\n", h[0], h[1])
 	}
-	body := payload(r.size)
+	body := payloadS(r.size, r.salt)
 	bodyless := r.status == 204 || r.status == 304
 	switch {
 	case bodyless:
@@ -146,9 +159,9 @@ func respScripts(tier string) []respScript {
 					if (st == 204 || st == 304) && (sz != 0 || fr != "content-length") {
 						continue
 					}
-					out = append(out, respScript{st, h, sz, fr, false})
+					out = append(out, respScript{st, h, sz, fr, false, 0})
 					if h == 0 && sz <= 4095 {
-						out = append(out, respScript{st, h, sz, fr, true})
+						out = append(out, respScript{st, h, sz, fr, true, 0})
 					}
 				}
 			}
@@ -535,7 +548,7 @@ func runSpecials(w *c16world, rep *lib.Report) {
 	}
 	// the user's listener callback fails once (on either notification): whatever happens to THAT exchange, the
 	// following ordinary exchanges must be relayed as usual - no hang, pairing intact
-	okScript := respScript{200, 0, 1, "content-length", false}
+	okScript := respScript{200, 0, 1, "content-length", false, 0}
 	for _, on := range []int{forward.StateConnected, forward.StateDisconnected} {
 		w.panicOn = on
 		_, d0 := w.exchange(okScript.steps(), nil, false)
@@ -553,6 +566,54 @@ func runSpecials(w *c16world, rep *lib.Report) {
 			rep.Count("exchanges_after_failed_listener_callback")
 		}
 		w.watchdog = 0
+	}
+	// two exchanges in flight through the same forwarder: client A stops reading in the middle of a large body
+	// (its k-th write blocks), B's exchange runs to completion meanwhile, then A resumes - each client must
+	// receive exactly its own backend's bytes
+	for _, stallAt := range []int{1, 2, 3} {
+		a := respScript{200, 0, 96 * 1024, "content-length", false, 3}
+		b := respScript{201, 0, 80 * 1024, "chunked", false, 11}
+		cv := &clientView{h: http.Header{}, stallAt: stallAt, stalled: make(chan struct{}), resume: make(chan struct{})}
+		w.backend.Drain()
+		w.stalling = false
+		w.backend.Play(a.steps())
+		ctx := context.WithValue(context.Background(), http.ServerContextKey, &http.Server{})
+		pa, _ := lib.ParseRequest(lib.RawRequest("GET", "/a", nil, nil, 0))
+		doneA := make(chan any, 1)
+		go func() {
+			defer func() { doneA <- recover() }()
+			w.proxy.ServeHTTP(cv, pa.WithContext(ctx))
+		}()
+		select {
+		case <-cv.stalled:
+		case <-time.After(20 * time.Second):
+			rep.DistrustF("overlap special: client A never reached its write #%d", stallAt)
+			close(cv.resume)
+			continue
+		}
+		oB, doneB := w.exchange(b.steps(), nil, false)
+		doneB()
+		close(cv.resume)
+		var panA any
+		hungA := false
+		select {
+		case panA = <-doneA:
+		case <-time.After(30 * time.Second):
+			hungA = true
+		}
+		rep.Evaluations++
+		wa := what("overlap")
+		wa["stall_at_write"] = stallAt
+		switch {
+		case hungA || panA != nil || oB.hung || oB.panic != nil:
+			rep.Violate("C16:overlapping-exchanges-failed", fmt.Sprintf("A stalled at write %d: A hung %v panic %v; B hung %v panic %v", stallAt, hungA, panA, oB.hung, oB.panic), wa)
+		case cv.code != 200 || !bytes.Equal(cv.body.Bytes(), payloadS(a.size, a.salt)):
+			rep.Violate("C16:body-altered:overlapping-exchanges", fmt.Sprintf("client A (stalled at its write %d while another exchange completed) got status %d and %d bytes that are not its backend's %d bytes", stallAt, cv.code, cv.body.Len(), a.size), wa)
+		case oB.code != 201 || !bytes.Equal(oB.body, payloadS(b.size, b.salt)):
+			rep.Violate("C16:body-altered:overlapping-exchanges", fmt.Sprintf("client B (served while A was stalled at write %d) got status %d and %d bytes that are not its backend's %d bytes", stallAt, oB.code, len(oB.body), b.size), wa)
+		default:
+			rep.Count("overlapping_exchanges")
+		}
 	}
 	// client goes away while the backend stalls
 	o, done = w.exchange([]step{{kind: stepStall}}, nil, true)
@@ -612,7 +673,7 @@ func RunC16(tier string, sh lib.Shard, rep *lib.Report) {
 	}
 	if sh.I == 0 {
 		runSpecials(w, rep)
-		rep.Require("client_cancellations", "exchanges_after_failed_listener_callback")
+		rep.Require("client_cancellations", "exchanges_after_failed_listener_callback", "overlapping_exchanges")
 	}
 	rep.Nontrivial = rep.Counters["faults_injected"]
 }
